@@ -46,6 +46,9 @@ package gcsutil
 // context.Context.Err in /verif/contracts/trusted/area_lockmap.spec: once ended, Err() != nil).
 // ---------------------------------------------------------------------------------------------
 
+// The reference count of a lock object is only read or written under the map mutex of the lock map that owns it.
+//@ guarded_by countedLock.refcount TransientLockMap.mu
+
 //@ ghostvar lmTick int
 
 //@ spec lmFull(m *countedLock) bool = ufb_lmFull(m, lmTick)
